@@ -7,7 +7,7 @@ use crate::{
         qos_policy::{DestinationOrderQosPolicyKind, HistoryQosPolicyKind, OwnershipQosPolicyKind},
         sample_info::{InstanceStateKind, SampleInfo, SampleStateKind, ViewStateKind},
         status::SampleRejectedStatusKind,
-        time::{DurationKind, TIME_INVALID_NSEC, TIME_INVALID_SEC, Time},
+        time::{Duration, DurationKind, TIME_INVALID_NSEC, TIME_INVALID_SEC, Time},
     },
     transport::types::{ChangeKind, Guid},
 };
@@ -88,6 +88,11 @@ impl InstanceState {
 
     pub fn last_received_time_stamp(&self) -> Time {
         self.last_received_time_stamp
+    }
+
+    /// A missed deadline period has been reported: the next one starts now.
+    pub fn rearm_deadline(&mut self, period: Duration) {
+        self.last_received_time_stamp = self.last_received_time_stamp + period;
     }
 }
 
